@@ -71,6 +71,10 @@ chk("C13",
     "Bounded-exhaustive exploration over the schema-derived catalogue: every mapping node of the 4 maximal seeds (every section of the workflow syntax) x {foreign key inserted first/middle/last, every existing key duplicated verbatim and re-cased, every mandatory key removed} x {alone, combined with a malformed placeholder in each direct sibling scalar}; each mutated workflow linted by the real Linter; oracle from the documentation-derived schema: report at the foreign key (schedule: at the item), at the repetition, a diagnostic naming the removed key, and the sibling's own diagnostic survives.",
     "One occurrence of each section (the seeds); block-style mappings; foreign keys are not asserted for open mappings; event names under on: are left to the events rule." + OVERLAY_NOTE,
     "exhaustive enumeration of (mapping, key mutation, sibling) over a schema-derived catalogue; positional oracle")
+chk("C14",
+    "Bounded-exhaustive exploration of callee interfaces x call sites through the real Linter: every spec of the bundled popular-actions table (enumerated completely; the table itself is the declaration) x {no inputs, exactly the required, all, required minus each one, one extra, re-cased keys} with references to every declared and one undeclared output; all 125 local action interfaces over 3 inputs in {absent, optional, required, required+default, optional+default} x 0-2 outputs x every subset of declared inputs, one extra, re-cased; all 169 reusable-workflow input interfaces over 2 inputs (absent | type x required x default) x 3 secret sets x 0-1 outputs x call sites (none, required, all re-cased, extra input, extra secret, secrets: inherit, required minus each), with the interface derived from the callee's file and from its AST (callee linted first in the same run under the default controlled schedule); 3 declared types x 12 literal / expression values; oracle = set arithmetic on the declared interface and the documented assignability table.",
+    "Interfaces beyond 3 action inputs / 2 workflow inputs are not generated; the bundled table's content is taken as given." + OVERLAY_NOTE,
+    "complete enumeration of the bundled table and of all small interfaces x call sites vs set-arithmetic reference")
 chk("C16",
     "Bounded-exhaustive exploration of (echo site x hostile payload x output mode): every value and key position of 4 clean seeds and a noisy seed whose diagnostics echo object types, names and user strings x 12 payloads (LF, CR, control, ESC, NEL, LS, tab, non-ASCII, ' [b]', 'x:1:2: y', format verbs) in 1-5 embeddings (whole scalar, appended, string literal, fromJSON key, identifier); each resulting diagnostic list rendered by the real Linter in default, -oneline, coloured -oneline, {{json .}} and a custom template and parsed back: header line count, shipped problem-matcher regexp (JavaScript '.' semantics) -> same file/line/column/message/kind, JSON round trip, snippet = referenced line; plus PrettyPrint/GetTemplateFields over all sources of length <=4 (thorough 5) over {a, space, tab, LF, é, あ} x line -1..4 x column -1..7 against a reference (no panic, header, referenced line, caret column).",
     "Echo sites are those reachable from the seeds' positions; the matcher regexp is evaluated by Go's regexp package after narrowing '.' to JavaScript's meaning; caret placement is not compared when the prefix contains a tab or the column splits a multi-byte character." + OVERLAY_NOTE,
